@@ -98,6 +98,63 @@ pub fn process(
 ) -> Result<Vec<u8>, Error> {
     let mut finalized_opcode = vec![];
 
+    // Every arm below indexes into the operand list: check the count first
+    let expected_args = match op {
+        Operation::Com
+        | Operation::Neg
+        | Operation::Inc
+        | Operation::Dec
+        | Operation::Push
+        | Operation::Pop
+        | Operation::Lsr
+        | Operation::Ror
+        | Operation::Asr
+        | Operation::Swap
+        | Operation::Tst
+        | Operation::Clr
+        | Operation::Lsl
+        | Operation::Rol
+        | Operation::Ser
+        | Operation::Rjmp
+        | Operation::Rcall
+        | Operation::Jmp
+        | Operation::Call
+        | Operation::Bset
+        | Operation::Bclr => 1,
+        Operation::Br(BranchT::Bs) | Operation::Br(BranchT::Bc) => 2,
+        Operation::Br(_) => 1,
+        Operation::Lpm | Operation::Elpm => {
+            if op_args.is_empty() {
+                0
+            } else {
+                2
+            }
+        }
+        Operation::Ijmp
+        | Operation::Eijmp
+        | Operation::Icall
+        | Operation::Eicall
+        | Operation::Ret
+        | Operation::Reti
+        | Operation::Spm
+        | Operation::Se(_)
+        | Operation::Cl(_)
+        | Operation::Break
+        | Operation::Nop
+        | Operation::Sleep
+        | Operation::Wdr
+        | Operation::Custom(_) => 0,
+        _ => 2,
+    };
+    if op_args.len() != expected_args {
+        bail!(
+            "{:?} takes {} operand(s), {} given",
+            op,
+            expected_args,
+            op_args.len()
+        );
+    }
+
     let mut opcode = op.info(constants).op_code;
     let mut opcode_2part = 0u16;
     let mut long_opcode = false;
